@@ -24,7 +24,18 @@ import (
 var Prop = &core.Prop{ID: "C17", Run: run, Child: child, Replay: replay}
 
 func run(c *core.Ctx) int {
-	base, err := os.MkdirTemp("", "c17-")
+	// The trees are tiny and rebuilt thousands of times: prefer a tmpfs so that
+	// the check neither waits for nor loads the disk's journal.
+	parent := os.Getenv("VERIF_C17_TMP")
+	if parent == "" {
+		if fi, e := os.Stat("/dev/shm"); e == nil && fi.IsDir() {
+			parent = "/dev/shm"
+		}
+	}
+	base, err := os.MkdirTemp(parent, "c17-")
+	if err != nil && parent != "" {
+		base, err = os.MkdirTemp("", "c17-")
+	}
 	if err != nil {
 		fmt.Println("cannot create temp dir:", err)
 		return 2
